@@ -24,7 +24,34 @@ func checkRoundTrip(e *Entry, s string, res ParseResult) map[string]string {
 		return viol
 	}
 	if !e.Single {
-		// lists: each statement separately through ParseStatement-like single entry
+		// list entry points: the statements' SQL() joined by ";" must give the same list again
+		var parts []string
+		for _, root := range res.Roots {
+			s1, ok := safeSQL(root)
+			if !ok {
+				return viol // C04
+			}
+			parts = append(parts, s1)
+		}
+		if len(parts) == 0 {
+			return viol
+		}
+		joined := strings.Join(parts, ";\n")
+		res2 := e.Call(joined)
+		switch {
+		case res2.Panic != nil:
+		case res2.Err != nil:
+			viol["C01/list/reparse-error/"+errClass(res2.Err)+"/"+errContext(joined, res2.Err)] = fmt.Sprintf("%s accepts %q; the statements' SQL() joined by ';' = %q is rejected: %v", e.Name, s, joined, res2.Err)
+		case len(res2.Roots) != len(res.Roots):
+			viol["C01/list/count"] = fmt.Sprintf("%s(%q) has %d statements, re-parsing their SQL() gives %d", e.Name, s, len(res.Roots), len(res2.Roots))
+		default:
+			for i := range res.Roots {
+				if d := oracle.EqualUpToPos(res.Roots[i], res2.Roots[i]); d != "" {
+					viol["C01/ast-diff/"+oracle.SigOf(d)] = fmt.Sprintf("%s(%q): statement %d differs after the round trip: %s", e.Name, s, i, d)
+					break
+				}
+			}
+		}
 		return viol
 	}
 	t := res.Roots[0]
@@ -76,6 +103,22 @@ func C01(r *explore.Run) {
 	tokenSpaces(r, explore.Options{}, false, body)
 	corpusSpace(r, body)
 	grammarTreeSpace(r, 3, body)
+	// lists of sentences through the list entry points
+	grammarSpace(r, "S4/grammar-lists", 1, func(c *explore.Ctx, s *grammar.Sentence) {
+		if !isStatementKind(s.Kind) {
+			return
+		}
+		text := s.Text()
+		def := map[string]string{"query": "SELECT 1", "ddl": "DROP TABLE t", "dml": "DELETE FROM t WHERE TRUE", "call": "CALL p()"}[s.Kind]
+		le := map[string]string{"ddl": "ParseDDLs", "dml": "ParseDMLs"}[s.Kind]
+		for _, x := range []string{text + " ; " + def, def + " ; " + text + " ;"} {
+			c.Input(x)
+			body(c, EntryByName("ParseStatements"), x)
+			if le != "" {
+				body(c, EntryByName(le), x)
+			}
+		}
+	})
 }
 
 // ---------------------------------------------------------------------------
